@@ -66,6 +66,7 @@ func (r *request) executeInternal(next bool) {
 	for !r.done {
 		if next {
 			r.host = r.qp.Next()
+			verifTrace("host", r, nil, 0, 0, 0, verifHostKey(r.host))
 		}
 		if r.host == nil {
 			r.done = true
@@ -83,12 +84,14 @@ func (r *request) executeInternal(next bool) {
 }
 
 func (r *request) send(msg message.Message) {
+	verifTrace("reply", r, nil, 0, 0, 0, "")
 	_ = r.client.conn.Write(proxycore.SenderFunc(func(writer io.Writer) error {
 		return r.client.getCodec().EncodeFrame(frame.NewFrame(r.version, r.stream, msg), writer)
 	}))
 }
 
 func (r *request) sendRaw(raw *frame.RawFrame) {
+	verifTrace("reply", r, nil, 1, int64(raw.Header.OpCode), 0, "")
 	raw.Header.StreamId = r.stream
 	_ = r.client.conn.Write(proxycore.SenderFunc(func(writer io.Writer) error {
 		return r.client.getCodec().EncodeRawFrame(raw, writer)
@@ -138,6 +141,7 @@ func (r *request) OnClose(_ error) {
 	r.mu.Lock()
 	defer r.mu.Unlock()
 
+	verifTrace("onclose", r, nil, 0, 0, 0, "")
 	if r.checkIdempotent() {
 		r.executeInternal(true)
 	} else {
@@ -228,6 +232,7 @@ func (r *request) handleErrorResult(raw *frame.RawFrame) (retried bool) {
 			// Do nothing, return the error
 		}
 
+		verifTrace("decision", r, nil, int64(decision), int64(r.retryCount), int64(r.state), verifErrorFields(errMsg))
 		switch decision {
 		case RetryNext:
 			r.retryCount++
